@@ -98,3 +98,30 @@ example : Pipe.subscribeRun true 3 40 = { assigned := true, flag := true, remain
 example : (Pipe.subscribeRun false 3 50).pulls = 50 := by decide
 
 end C14
+
+namespace C14
+open Pipe
+
+/-- **loop_starves_queued.** `from_iterable` over a never-ending iterator runs as ONE trampoline action: whatever
+is queued behind it (the `of(1)` of `take_until(of(1))`, the other side of `combine_latest`, the inners of `flat_map`)
+never runs, for every budget — the recorded finding C14-loop-starves-queued. -/
+theorem loop_starves_queued (fuel : Nat) (q : List Prog) :
+    QEv.otherRan ∉ drainQ fuel (Prog.loop :: q) := by
+  induction fuel generalizing q with
+  | zero => simp [drainQ]
+  | succ f ih =>
+    simp only [drainQ, List.mem_cons, not_or]
+    exact ⟨by decide, ih []⟩
+
+/-- **resched_producer_fair.** A re-scheduling producer (range / generate / repeat_value / repeat) emits one element
+per trampoline turn and re-queues itself BEHIND what is already queued: a source queued behind it runs after exactly
+one produced element, however many elements the producer still has. -/
+theorem resched_producer_fair (fuel k : Nat) (q : List Prog) :
+    drainQ (fuel + 2) (Prog.step (k + 1) :: Prog.other :: q) =
+      QEv.produced :: QEv.otherRan :: drainQ fuel (q ++ [Prog.step k]) := by
+  simp [drainQ]
+
+example : drainQ 6 [Prog.step 3, Prog.other] = [.produced, .otherRan, .produced, .produced, .produced] := by decide
+example : drainQ 6 [Prog.loop, Prog.other] = [.produced, .produced, .produced, .produced, .produced, .produced] := by decide
+
+end C14
